@@ -109,12 +109,17 @@ def _public_job(a):
     dist = np.array(dist)
     inst = T.make_instance(n, rounds, (1, ll, 1, ll, 0, ll), dist)
     obj = GamePlanLength(inst)
-    pen = 2 * int(dist.max()) + 1
-    ub = n * days * pen
-    if obj.bye_penalty != pen or obj.upper_bound() != ub \
-            or obj.lower_bound() != 0:
-        return ("attrs", obj.bye_penalty, obj.lower_bound(),
-                obj.upper_bound(), pen, ub)
+    # the statement fixes neither the penalty nor the bounds: the penalty is
+    # "a fixed penalty" (whatever the objective declares), every value must
+    # lie within the DECLARED bounds (the all-home plan has length 0 and the
+    # all-bye plan n*days*penalty, both are in the plan space)
+    pen = obj.bye_penalty
+    ub = obj.upper_bound()
+    lb = obj.lower_bound()
+    if not isinstance(pen, int) or pen <= 0 or lb > 0 \
+            or ub < n * days * pen:
+        return ("attrs", pen, lb, ub, 2 * int(dist.max()) + 1,
+                n * days * pen if isinstance(pen, int) else -1)
     gp = T.to_game_plan(inst, np.zeros((days, n), int))
     cnt = 0
     vals = set()
@@ -127,7 +132,7 @@ def _public_job(a):
         vals.add(int(got))
         if got != exp or not isinstance(got, int):
             return ("bad", idx, 1, int(got), exp, -1)
-        if not 0 <= got <= ub:
+        if not lb <= got <= ub:
             return ("bad", idx, 2, int(got), ub, -1)
         for cell in range(days * n):
             if y[cell // n, cell % n] == 0:
